@@ -151,10 +151,15 @@ static void audit_heap(int h)
 
 static int clr_id[MAXN + 8], nclr, pre_ids[MAXN];
 
+static int plain_count;          /* see the lists world */
+static void clear_cb(void *obj, void *priv);
+static int heap_clear_plain(struct cstl_heap *h) { plain_count = 0; g_inlib = 1; cstl_heap_clear(h, clear_cb); g_inlib = 0; return plain_count; }
+
 static void clear_cb(void *obj, void *priv)
 {
     CB_ENTER();
     struct helem *e = ELM(obj);
+    plain_count++;
     int id = -1;
     (void)priv;
     if (simheap_is_live(e) && e->magic == MAGIC && e->tail == ~MAGIC) id = e->id;
@@ -234,6 +239,7 @@ static void h_exec(const plan_t *p)
     int i, k;
 
     simheap_reset(&hc, p->cfg[CF_JUNK]);
+    simheap_far((int)p->cfg[CF_FAR]);
     nh = (int)p->cfg[CF_NH]; if (nh < 1) nh = 1; if (nh > 2) nh = 2;
     prios = (int)p->cfg[CF_PRIOS]; if (prios < 1) prios = 1;
     maxn = (int)p->cfg[CF_MAXN]; if (maxn < 1) maxn = 4; if (maxn > MAXN - 8) maxn = MAXN - 8;
@@ -250,6 +256,12 @@ static void h_exec(const plan_t *p)
         hkind[i] = (int)(p->cfg[CF_CLEARFREES] >> (4 + i) & 1);
         hords[i].dir = (p->cfg[CF_CLEARFREES] >> (8 + i) & 1) ? -1 : 1;
         mh[i].ord = &hords[i];
+        if (p->cfg[CF_DECL] && g_hnd == 0) {
+            /* the documented other way to get an empty heap: the initializer macros, with expressions as arguments */
+            if (hkind[i]) { DECLARE_CSTL_HEAP(t, struct helem, hn2, i ? cmp_prio : &cmp_prio, hords + i); hp[i] = t; }
+            else hp[i] = (struct cstl_heap)CSTL_HEAP_INITIALIZER(struct helem, hn, i ? &cmp_prio : cmp_prio, hords + i);
+            PROBE("from_initializer_macro");
+        } else
         cstl_heap_init(&hp[i], cmp_prio, &hords[i], hoff(hkind[i]) - g_hnd);
         mh[i].n = 0; mh[i].since_clear = -1;
     }
@@ -338,6 +350,11 @@ static void h_exec(const plan_t *p)
             static unsigned char used[MAXN];
             for (i = 0; i < npre; i++) pre_ids[i] = m->e[i]->id;
             nclr = 0; m->since_clear = 0; g_cur_prop = "C15"; g_cur_ctx = "after-clear";
+            if (o->a[1] & 1) {
+                int seen = heap_clear_plain(&hp[h]);
+                if (seen != npre) VIOL(h, "callback_effects_invisible", "clear of %d elements: the caller's own counter, written by the callback and read right after the call in an optimised function, says %d", npre, seen);
+                PROBE("clear_in_plain_function");
+            } else
             TRY(cstl_heap_clear(&hp[h], clear_cb));
             m->n = 0;
             if (g_aborted) VIOL(h, "abort", "clear aborted");
@@ -391,6 +408,8 @@ static void h_exec(const plan_t *p)
 
 static void h_gen(prng_t *r, int mode, plan_t *p)
 {
+    p->cfg[CF_FAR] = FAR_OF_INDEX();      /* element blocks 2^32 or 3 * 2^31 bytes apart in one run in seven each */
+    p->cfg[CF_DECL] = DECL_OF_INDEX();    /* one run in five starts from the initializer macros */
     int longrun = prng_chance(r, 1, 10), small = !longrun && prng_chance(r, 1, 5);
     int nops = longrun ? 600 + (int)prng_below(r, 1800) : small ? 2 + (int)prng_below(r, 8) : 10 + (int)prng_below(r, 70);
     unsigned w_clear = mode == 15 ? 10 : 1;
